@@ -179,16 +179,345 @@ func c14U64(rng *rand.Rand, nroots uint64) uint64 {
 	}
 }
 
-// TestVerifC14MDM runs generated MDM programs instruction by instruction on a real
-// programExecutor (real updater, budget, volume manager, registry) under recover, then
-// rolls back or commits, and records every step for MDM/Model.v.
-func TestVerifC14MDM(t *testing.T) {
-	em := newVerifEmitter(t, "From HostdBase Require Import Base.\nFrom HostdMDM Require Import Model.", "case", "check")
-	defer em.Close()
-	h := newC14Host(t)
-	log := zap.NewNop()
-	cid := h.contract.Revision.ParentID
+// c14World is the fixed environment the generated programs refer to.
+type c14World struct {
+	h         *c14Host
+	known     []types.Hash256 // sectors the host stores (referenced as temporary sectors)
+	absent    types.Hash256   // a root stored nowhere
+	baseRoots []types.Hash256 // sector roots of the contract
+	windowEnd uint64
+	buf       []byte
+	fill      byte
+}
 
+// c14Program is one generated MDM program with its price table, duration and budget.
+type c14Program struct {
+	prog     []rhp3.Instruction
+	d        *c14Data
+	pt       rhp3.HostPriceTable
+	dur      uint64
+	amount   types.Currency
+	attach   bool
+	finalize bool
+}
+
+func (w *c14World) directed(id int) (p *c14Program) {
+	const ss = rhp2.SectorSize
+	max := ^uint64(0)
+	pt := rhp3.HostPriceTable{InitBaseCost: types.NewCurrency64(1), ReadBaseCost: types.NewCurrency64(1), ReadLengthCost: types.NewCurrency64(1),
+		DownloadBandwidthCost: types.NewCurrency64(1), UploadBandwidthCost: types.NewCurrency64(1), WriteBaseCost: types.NewCurrency64(1),
+		DropSectorsUnitCost: types.NewCurrency64(1), SwapSectorBaseCost: types.NewCurrency64(1), HasSectorBaseCost: types.NewCurrency64(1)}
+	pt.HostBlockHeight = w.windowEnd - 10
+	prefix := make([]byte, c14Prefix)
+	u := func(slot int, v uint64) { binary.LittleEndian.PutUint64(prefix[8*slot:], v) }
+	copy(prefix[c14SlotHash:], w.known[0][:])
+	spec := types.SpecifierEd25519
+	copy(prefix[c14SlotKey:], spec[:])
+	var prog []rhp3.Instruction
+	switch id {
+	case 0: // DropSectors of 0 sectors with a proof: an empty proof range
+		u(0, 0)
+		prog = []rhp3.Instruction{&rhp3.InstrDropSectors{SectorCountOffset: 0, ProofRequired: true}}
+	case 1: // DropSectors of more sectors than the contract has, with a proof
+		u(0, uint64(len(w.baseRoots))+1)
+		prog = []rhp3.Instruction{&rhp3.InstrDropSectors{SectorCountOffset: 0, ProofRequired: true}}
+	case 2: // ReadOffset beyond the sector, without a proof
+		u(0, ss+1)
+		u(1, 0)
+		prog = []rhp3.Instruction{&rhp3.InstrReadOffset{LengthOffset: 0, OffsetOffset: 8}}
+	case 3: // ReadOffset of one byte with a proof: an empty leaf range
+		u(0, 1)
+		u(1, 0)
+		prog = []rhp3.Instruction{&rhp3.InstrReadOffset{LengthOffset: 0, OffsetOffset: 8, ProofRequired: true}}
+	case 4: // ReadSector whose offset+length wraps around
+		u(0, 128)
+		u(1, max-63)
+		prog = []rhp3.Instruction{&rhp3.InstrReadSector{LengthOffset: 0, OffsetOffset: 8, MerkleRootOffset: c14SlotHash, ProofRequired: true}}
+	case 5: // ReadRegistry with an 8-byte unlock key
+		prog = []rhp3.Instruction{&rhp3.InstrReadRegistry{PublicKeyOffset: c14SlotKey, PublicKeyLength: 8, TweakOffset: c14SlotTweak, Version: 1}}
+	case 6: // operand offset 2^64-8
+		prog = []rhp3.Instruction{&rhp3.InstrHasSector{MerkleRootOffset: c14SlotHash}, &rhp3.InstrDropSectors{SectorCountOffset: max - 7}}
+	case 7: // SwapSector with indices beyond the contract and a proof
+		u(0, max)
+		u(1, uint64(len(w.baseRoots)))
+		prog = []rhp3.Instruction{&rhp3.InstrSwapSector{Sector1Offset: 0, Sector2Offset: 8, ProofRequired: true}}
+	case 8: // UpdateSector whose patch lies at data offset 2^64-1
+		prog = []rhp3.Instruction{&rhp3.InstrUpdateSector{Offset: 0, Length: 2, DataOffset: max}}
+	case 9: // a well-formed program: read a leaf with proof, swap, drop one sector with proof
+		u(0, 64)
+		u(1, ss-64)
+		u(2, 0)
+		u(3, 1)
+		u(4, 1)
+		prog = []rhp3.Instruction{&rhp3.InstrReadOffset{LengthOffset: 0, OffsetOffset: 8, ProofRequired: true},
+			&rhp3.InstrSwapSector{Sector1Offset: 16, Sector2Offset: 24, ProofRequired: true},
+			&rhp3.InstrDropSectors{SectorCountOffset: 32, ProofRequired: true}}
+	case 10: // StoreSector reading its sector at offset 2^64-SectorSize+1
+		prog = []rhp3.Instruction{&rhp3.InstrStoreSector{DataOffset: max - ss + 2, Duration: 10}}
+	default: // UpdateRegistry with a signature offset that wraps
+		prog = []rhp3.Instruction{&rhp3.InstrUpdateRegistry{TweakOffset: c14SlotTweak, RevisionOffset: c14SlotRev, SignatureOffset: max - 63,
+			PublicKeyOffset: c14SlotKey, PublicKeyLength: 48, DataOffset: c14SlotData, DataLength: 32}}
+	}
+	d := newC14Data(w.buf, w.fill, c14Prefix+8, prefix, nil)
+	p = &c14Program{prog: prog, d: d, pt: pt, dur: 10, amount: types.Siacoins(1)}
+	p.flags()
+	return
+}
+
+const c14Directed = 12
+
+func (p *c14Program) flags() {
+	for _, in := range p.prog {
+		p.attach = p.attach || in.RequiresContract() || in.RequiresFinalization()
+		p.finalize = p.finalize || in.RequiresFinalization()
+	}
+}
+
+// generate draws a program: mostly valid operands in per-instruction slots of the operand
+// area, hostile operand offsets, truncated data, cheap and expensive price tables.
+func (w *c14World) generate(rng *rand.Rand, registryWrites bool) *c14Program {
+	// ---- price table, duration, budget
+	pt := rhp3.HostPriceTable{
+		InitBaseCost:          c14Price(rng, 60),
+		DownloadBandwidthCost: c14Price(rng, 60),
+		UploadBandwidthCost:   c14Price(rng, 60),
+		DropSectorsBaseCost:   c14Price(rng, 60),
+		DropSectorsUnitCost:   c14Price(rng, 60),
+		HasSectorBaseCost:     c14Price(rng, 60),
+		ReadBaseCost:          c14Price(rng, 60),
+		ReadLengthCost:        c14Price(rng, 60),
+		RevisionBaseCost:      c14Price(rng, 60),
+		SwapSectorBaseCost:    c14Price(rng, 60),
+		WriteBaseCost:         c14Price(rng, 60),
+		WriteLengthCost:       c14Price(rng, 60),
+		WriteStoreCost:        c14Price(rng, 40),
+		CollateralCost:        c14Price(rng, 40),
+	}
+	if rng.Intn(3) > 0 { // mostly cheap, so that programs run to the interesting checks
+		pt = rhp3.HostPriceTable{InitBaseCost: types.NewCurrency64(uint64(rng.Intn(5))), ReadBaseCost: types.NewCurrency64(1), ReadLengthCost: types.NewCurrency64(uint64(rng.Intn(2))),
+			WriteBaseCost: types.NewCurrency64(2), UploadBandwidthCost: types.NewCurrency64(uint64(rng.Intn(2))), DownloadBandwidthCost: types.NewCurrency64(uint64(rng.Intn(3))),
+			WriteStoreCost: types.NewCurrency64(uint64(rng.Intn(2))), CollateralCost: types.NewCurrency64(uint64(rng.Intn(3))), SwapSectorBaseCost: types.NewCurrency64(1),
+			DropSectorsUnitCost: types.NewCurrency64(uint64(rng.Intn(2))), HasSectorBaseCost: types.NewCurrency64(1), RevisionBaseCost: types.NewCurrency64(3)}
+	}
+	dur := []uint64{1, 10, 1000, 1<<32 - 1}[rng.Intn(4)]
+	pt.HostBlockHeight = w.windowEnd - dur
+	var amount types.Currency
+	switch rng.Intn(8) {
+	case 0:
+		amount = types.NewCurrency64(uint64(rng.Intn(40)))
+	case 1:
+		amount = types.NewCurrency64(uint64(rng.Intn(5000000)))
+	case 2:
+		amount = types.NewCurrency64(1 << 40).Mul64(uint64(1 + rng.Intn(100)))
+	default:
+		amount = types.Siacoins(1).Div64(uint64(1 + rng.Intn(4)))
+	}
+
+	// ---- operand area
+	curRoots := append([]types.Hash256(nil), w.baseRoots...)
+	prefix := make([]byte, c14Prefix)
+	rng.Read(prefix)
+	for k := 0; k < 16; k++ {
+		binary.LittleEndian.PutUint64(prefix[c14SlotU64+8*k:], c14U64(rng, uint64(len(curRoots))))
+	}
+	setU64 := func(slot int, v uint64) { binary.LittleEndian.PutUint64(prefix[c14SlotU64+8*slot:], v) }
+	curN := uint64(len(curRoots)) // expected number of roots if everything so far succeeds
+	pickRoot := func() types.Hash256 {
+		switch rng.Intn(5) {
+		case 0:
+			return w.absent
+		case 1:
+			var r types.Hash256
+			rng.Read(r[:])
+			return r
+		default:
+			return w.known[rng.Intn(len(w.known))]
+		}
+	}
+	h0, h1 := pickRoot(), pickRoot()
+	copy(prefix[c14SlotHash:], h0[:])
+	copy(prefix[c14SlotHash+32:], h1[:])
+	spec := types.SpecifierEd25519
+	if rng.Intn(10) == 0 {
+		spec = types.NewSpecifier("entropy")
+	}
+	copy(prefix[c14SlotKey:], spec[:])
+	pk := w.h.renterKey.PublicKey()
+	copy(prefix[c14SlotKey+16:], pk[:])
+	var tweak types.Hash256
+	tweak[0] = byte(rng.Intn(3))
+	copy(prefix[c14SlotTweak:], tweak[:])
+	regRev := uint64(rng.Intn(4))
+	binary.LittleEndian.PutUint64(prefix[c14SlotRev:], regRev)
+	regData := prefix[c14SlotData : c14SlotData+32]
+	entry := rhp3.RegistryEntry{RegistryKey: rhp3.RegistryKey{PublicKey: pk, Tweak: tweak},
+		RegistryValue: rhp3.RegistryValue{Revision: regRev, Type: rhp3.EntryTypeArbitrary, Data: regData}}
+	sig := w.h.renterKey.SignHash(entry.Hash())
+	if rng.Intn(6) == 0 {
+		sig[5] ^= 0xff
+	}
+	copy(prefix[c14SlotSig:], sig[:])
+
+	var dn int
+	switch rng.Intn(10) {
+	case 0:
+		dn = rng.Intn(c14Prefix) // truncated program data
+	case 1, 2, 3:
+		dn = rhp2.SectorSize + c14Prefix + rng.Intn(3)*32
+	case 4:
+		dn = 2*rhp2.SectorSize + c14Prefix + rng.Intn(64)
+	default:
+		dn = c14Prefix + rng.Intn(100)
+	}
+	suffix := make([]byte, rng.Intn(16))
+	rng.Read(suffix)
+
+	off := func(slot int) uint64 { // mostly the slot, sometimes hostile
+		if rng.Intn(10) == 0 {
+			return c14Operand(rng, uint64(dn))
+		}
+		return uint64(slot)
+	}
+	hashoff := func() uint64 { return off(c14SlotHash + 32*rng.Intn(2)) }
+	sectoroff := func() uint64 {
+		switch rng.Intn(6) {
+		case 0:
+			return c14Operand(rng, uint64(dn))
+		case 1:
+			return uint64(dn) - rhp2.SectorSize
+		case 2:
+			return c14Prefix
+		default:
+			return 0
+		}
+	}
+	keylen := func() uint64 {
+		switch rng.Intn(8) {
+		case 0:
+			return uint64(rng.Intn(18))
+		case 1:
+			return 48 + uint64(rng.Intn(3)) - 1
+		case 2:
+			return c14Operand(rng, uint64(dn))
+		default:
+			return 48
+		}
+	}
+	proof := func() bool { return rng.Intn(2) == 0 }
+	valid := func() bool { return rng.Intn(10) < 7 }
+	// a range inside one sector: offset and length (leaf aligned when aligned is set)
+	inSector := func(aligned bool) (o, l uint64) {
+		if aligned {
+			o = 64 * uint64(rng.Intn(rhp2.SectorSize/64))
+			if rng.Intn(2) == 0 {
+				o = 64 * uint64(rng.Intn(4))
+			}
+			l = 64 * uint64(1+rng.Intn(8))
+			if rng.Intn(6) == 0 {
+				l = rhp2.SectorSize - o
+			}
+			if o+l > rhp2.SectorSize {
+				l = rhp2.SectorSize - o
+			}
+			return
+		}
+		o = uint64(rng.Intn(rhp2.SectorSize))
+		l = uint64(rng.Intn(300))
+		if o+l > rhp2.SectorSize {
+			l = rhp2.SectorSize - o
+		}
+		return
+	}
+	var prog []rhp3.Instruction
+	nin := 1 + rng.Intn(5)
+	for k := 0; k < nin; k++ {
+		s0, s1 := 3*k, 3*k+1
+		switch rng.Intn(16) {
+		case 0:
+			prog = append(prog, &rhp3.InstrAppendSector{SectorDataOffset: sectoroff(), ProofRequired: proof()})
+			curN++
+		case 1:
+			prog = append(prog, &rhp3.InstrAppendSectorRoot{MerkleRootOffset: hashoff(), ProofRequired: proof()})
+			curN++
+		case 2, 3:
+			if valid() {
+				c := uint64(rng.Intn(int(curN) + 1))
+				setU64(s0, c)
+				curN -= c
+			}
+			prog = append(prog, &rhp3.InstrDropSectors{SectorCountOffset: off(c14SlotU64 + 8*s0), ProofRequired: proof()})
+		case 4:
+			prog = append(prog, &rhp3.InstrHasSector{MerkleRootOffset: hashoff()})
+		case 5, 6:
+			pr := proof()
+			if valid() && curN > 0 {
+				o, l := inSector(pr || rng.Intn(2) == 0)
+				setU64(s0, l)
+				setU64(s1, uint64(rng.Intn(int(curN)))*rhp2.SectorSize+o)
+			}
+			prog = append(prog, &rhp3.InstrReadOffset{LengthOffset: off(c14SlotU64 + 8*s0), OffsetOffset: off(c14SlotU64 + 8*s1), ProofRequired: pr})
+		case 7, 8:
+			pr := proof()
+			if valid() {
+				o, l := inSector(pr || rng.Intn(2) == 0)
+				if l == 0 {
+					l = 64
+					o = 0
+				}
+				setU64(s0, l)
+				setU64(s1, o)
+			}
+			prog = append(prog, &rhp3.InstrReadSector{LengthOffset: off(c14SlotU64 + 8*s0), OffsetOffset: off(c14SlotU64 + 8*s1), MerkleRootOffset: hashoff(), ProofRequired: pr})
+		case 9, 10:
+			if valid() && curN > 0 {
+				setU64(s0, uint64(rng.Intn(int(curN))))
+				setU64(s1, uint64(rng.Intn(int(curN))))
+			}
+			prog = append(prog, &rhp3.InstrSwapSector{Sector1Offset: off(c14SlotU64 + 8*s0), Sector2Offset: off(c14SlotU64 + 8*s1), ProofRequired: proof()})
+		case 11:
+			ln := uint64(rng.Intn(3)) * 16
+			if rng.Intn(4) == 0 {
+				ln = c14Operand(rng, uint64(dn))
+			}
+			o := c14U64(rng, curN)
+			if valid() && curN > 0 {
+				ro, _ := inSector(false)
+				o = uint64(rng.Intn(int(curN)))*rhp2.SectorSize + ro
+				if ro+ln > rhp2.SectorSize && rng.Intn(3) > 0 {
+					o -= ro
+				}
+			}
+			prog = append(prog, &rhp3.InstrUpdateSector{Offset: o, Length: ln, DataOffset: off(c14SlotData), ProofRequired: proof()})
+		case 12:
+			du := []uint64{0, 1, 10, storage.MaxTempSectorBlocks, storage.MaxTempSectorBlocks + 1, ^uint64(0), 1 << 63}[rng.Intn(7)]
+			prog = append(prog, &rhp3.InstrStoreSector{DataOffset: sectoroff(), Duration: du})
+		case 13:
+			prog = append(prog, &rhp3.InstrRevision{})
+		case 14:
+			if rng.Intn(4) == 0 {
+				prog = append(prog, &rhp3.InstrReadRegistryNoVersion{InstrReadRegistry: rhp3.InstrReadRegistry{PublicKeyOffset: off(c14SlotKey), PublicKeyLength: keylen(), TweakOffset: off(c14SlotTweak)}})
+			} else {
+				prog = append(prog, &rhp3.InstrReadRegistry{PublicKeyOffset: off(c14SlotKey), PublicKeyLength: keylen(), TweakOffset: off(c14SlotTweak), Version: uint8(rng.Intn(4))})
+			}
+		default:
+			dl := uint64(32)
+			if rng.Intn(5) == 0 {
+				dl = c14Operand(rng, uint64(dn))
+			}
+			prog = append(prog, &rhp3.InstrUpdateRegistry{TweakOffset: off(c14SlotTweak), RevisionOffset: off(c14SlotRev), SignatureOffset: off(c14SlotSig),
+				PublicKeyOffset: off(c14SlotKey), PublicKeyLength: keylen(), DataOffset: off(c14SlotData), DataLength: dl, EntryType: rhp3.EntryTypeArbitrary})
+		}
+	}
+	d := newC14Data(w.buf, w.fill, dn, prefix, suffix)
+	p := &c14Program{prog: prog, d: d, pt: pt, dur: dur, amount: amount}
+	p.flags()
+	return p
+}
+
+// newC14World stores three sectors on the host (referenced as temporary sectors), puts
+// two of them into the contract and returns the environment programs are generated against.
+func newC14World(t *testing.T, h *c14Host) *c14World {
+	cid := h.contract.Revision.ParentID
 	const fill = 0x5A
 	buf := make([]byte, 2*rhp2.SectorSize+1024)
 	for i := range buf {
@@ -232,6 +561,137 @@ func TestVerifC14MDM(t *testing.T) {
 		t.Fatal(err)
 	}
 
+	return &c14World{h: h, known: known, absent: absent, baseRoots: baseRoots, windowEnd: h.contract.Revision.WindowEnd, buf: buf, fill: fill}
+}
+
+// c14Step is one instruction executed on a programExecutor: the Coq terms of the
+// instruction and of what the environment answered, and what the executor did.
+type c14Step struct {
+	term, name, env string
+	r               c14Exec
+	rootsBefore     []types.Hash256
+	rootsAfter      []types.Hash256
+	tempsBefore     int
+}
+
+// step executes one instruction under recover and collects the oracle values of the step.
+func (w *c14World) step(pe *programExecutor, in rhp3.Instruction, d *c14Data, log *zap.Logger) (st c14Step) {
+	term, name := c14InstrCoq(in)
+	// what the environment will answer
+	var ohas, oread bool
+	oget := "None"
+	pd := d.pd()
+	hashAt := func(o uint64) (r types.Hash256, ok bool) {
+		if o <= uint64(len(pd)) && uint64(len(pd))-o >= 32 {
+			copy(r[:], pd[o:])
+			return r, true
+		}
+		return
+	}
+	u64At := func(o uint64) (uint64, bool) {
+		if o <= uint64(len(pd)) && uint64(len(pd))-o >= 8 {
+			return binary.LittleEndian.Uint64(pd[o:]), true
+		}
+		return 0, false
+	}
+	readable := func(r types.Hash256) bool { _, err := w.h.node.Volumes.ReadSector(r); return err == nil }
+	rootAt := func(idx uint64) (types.Hash256, bool) {
+		if pe.updater == nil {
+			return types.Hash256{}, false
+		}
+		rs := pe.updater.SectorRoots()
+		if idx < uint64(len(rs)) {
+			return rs[idx], true
+		}
+		return types.Hash256{}, false
+	}
+	switch i := in.(type) {
+	case *rhp3.InstrAppendSectorRoot:
+		if r, ok := hashAt(i.MerkleRootOffset); ok {
+			ohas, _ = w.h.node.Volumes.HasSector(r)
+		}
+	case *rhp3.InstrReadSector:
+		if r, ok := hashAt(i.MerkleRootOffset); ok {
+			oread = readable(r)
+		}
+	case *rhp3.InstrReadOffset:
+		if o, ok := u64At(i.OffsetOffset); ok {
+			if r, ok := rootAt(o / rhp2.SectorSize); ok {
+				oread = readable(r)
+			}
+		}
+	case *rhp3.InstrUpdateSector:
+		if r, ok := rootAt(i.Offset / rhp2.SectorSize); ok {
+			oread = readable(r)
+		}
+	case *rhp3.InstrReadRegistry, *rhp3.InstrReadRegistryNoVersion:
+		var rr *rhp3.InstrReadRegistry
+		if a, ok := i.(*rhp3.InstrReadRegistry); ok {
+			rr = a
+		} else {
+			rr = &i.(*rhp3.InstrReadRegistryNoVersion).InstrReadRegistry
+		}
+		if tw, ok := hashAt(rr.TweakOffset); ok && rr.PublicKeyLength == 48 {
+			if k, ok := hashAt(rr.PublicKeyOffset + 16); ok && rr.PublicKeyOffset < 1<<32 {
+				if v, err := w.h.node.Registry.Get(rhp3.RegistryKey{PublicKey: types.PublicKey(k), Tweak: tw}); err == nil {
+					oget = fmt.Sprintf("(Some %d%%N)", len(v.Data))
+				}
+			}
+		}
+	}
+	var rootsBefore []types.Hash256
+	if pe.updater != nil {
+		rootsBefore = pe.updater.SectorRoots()
+	}
+	tempsBefore := len(pe.tempSectors)
+
+	r := c14ExecOne(pe, in, log)
+
+	// oracle values that are only known afterwards
+	oroot := types.Hash256{}
+	owrite, oput := true, true
+	if r.pan == nil && r.err == nil {
+		switch in.(type) {
+		case *rhp3.InstrAppendSector:
+			rs := pe.updater.SectorRoots()
+			oroot = rs[len(rs)-1]
+		case *rhp3.InstrStoreSector, *rhp3.InstrUpdateSector:
+			copy(oroot[:], r.out)
+		}
+	} else if r.err != nil {
+		if errors.Is(r.err, storage.ErrNotEnoughStorage) || strings.Contains(r.err.Error(), "failed to write sector") {
+			owrite = false
+		}
+		if _, ok := in.(*rhp3.InstrUpdateRegistry); ok {
+			early := false
+			for _, p := range []string{"failed to read", "unsupported unlock key", "invalid unlock key", "failed to pay"} {
+				early = early || strings.Contains(r.err.Error(), p)
+			}
+			oput = early
+		}
+	}
+	envTerm := fmt.Sprintf("{| oroot := %s; owrite := %s; ohas := %s; oread := %s; oget := %s; oput := %s |}",
+		coqHash(oroot), coqBool(owrite), coqBool(ohas), coqBool(oread), oget, coqBool(oput))
+
+	if pe.updater != nil {
+		st.rootsAfter = pe.updater.SectorRoots()
+	}
+	st.term, st.name, st.env, st.r, st.rootsBefore, st.tempsBefore = term, name, envTerm, r, rootsBefore, tempsBefore
+	return
+}
+
+// TestVerifC14MDM runs generated MDM programs instruction by instruction on a real
+// programExecutor (real updater, budget, volume manager, registry) under recover, then
+// rolls back or commits, and records every step for MDM/Model.v.
+func TestVerifC14MDM(t *testing.T) {
+	em := newVerifEmitter(t, "From HostdBase Require Import Base.\nFrom HostdMDM Require Import Model.", "case", "check")
+	defer em.Close()
+	h := newC14Host(t)
+	log := zap.NewNop()
+	cid := h.contract.Revision.ParentID
+
+	w := newC14World(t, h)
+	known, baseRoots := w.known, w.baseRoots
 	n := verifN(400)
 	for id := 0; id < n; id++ {
 		if em.Skip(id) {
@@ -242,244 +702,14 @@ func TestVerifC14MDM(t *testing.T) {
 			h.fund(types.Siacoins(1000))
 		}
 
-		// ---- price table, duration, budget
-		pt := rhp3.HostPriceTable{
-			InitBaseCost:          c14Price(rng, 60),
-			DownloadBandwidthCost: c14Price(rng, 60),
-			UploadBandwidthCost:   c14Price(rng, 60),
-			DropSectorsBaseCost:   c14Price(rng, 60),
-			DropSectorsUnitCost:   c14Price(rng, 60),
-			HasSectorBaseCost:     c14Price(rng, 60),
-			ReadBaseCost:          c14Price(rng, 60),
-			ReadLengthCost:        c14Price(rng, 60),
-			RevisionBaseCost:      c14Price(rng, 60),
-			SwapSectorBaseCost:    c14Price(rng, 60),
-			WriteBaseCost:         c14Price(rng, 60),
-			WriteLengthCost:       c14Price(rng, 60),
-			WriteStoreCost:        c14Price(rng, 40),
-			CollateralCost:        c14Price(rng, 40),
+		var p *c14Program
+		if id < c14Directed {
+			p = w.directed(id)
+		} else {
+			p = w.generate(rng, true)
 		}
-		if rng.Intn(3) > 0 { // mostly cheap, so that programs run to the interesting checks
-			pt = rhp3.HostPriceTable{InitBaseCost: types.NewCurrency64(uint64(rng.Intn(5))), ReadBaseCost: types.NewCurrency64(1), ReadLengthCost: types.NewCurrency64(uint64(rng.Intn(2))),
-				WriteBaseCost: types.NewCurrency64(2), UploadBandwidthCost: types.NewCurrency64(uint64(rng.Intn(2))), DownloadBandwidthCost: types.NewCurrency64(uint64(rng.Intn(3))),
-				WriteStoreCost: types.NewCurrency64(uint64(rng.Intn(2))), CollateralCost: types.NewCurrency64(uint64(rng.Intn(3))), SwapSectorBaseCost: types.NewCurrency64(1),
-				DropSectorsUnitCost: types.NewCurrency64(uint64(rng.Intn(2))), HasSectorBaseCost: types.NewCurrency64(1), RevisionBaseCost: types.NewCurrency64(3)}
-		}
-		dur := []uint64{1, 10, 1000, 1<<32 - 1}[rng.Intn(4)]
-		pt.HostBlockHeight = h.contract.Revision.WindowEnd - dur
-		var amount types.Currency
-		switch rng.Intn(8) {
-		case 0:
-			amount = types.NewCurrency64(uint64(rng.Intn(40)))
-		case 1:
-			amount = types.NewCurrency64(uint64(rng.Intn(5000000)))
-		case 2:
-			amount = types.NewCurrency64(1 << 40).Mul64(uint64(1 + rng.Intn(100)))
-		default:
-			amount = types.Siacoins(1).Div64(uint64(1 + rng.Intn(4)))
-		}
-
-		// ---- operand area
-		curRoots := append([]types.Hash256(nil), baseRoots...)
-		prefix := make([]byte, c14Prefix)
-		rng.Read(prefix)
-		for k := 0; k < 16; k++ {
-			binary.LittleEndian.PutUint64(prefix[c14SlotU64+8*k:], c14U64(rng, uint64(len(curRoots))))
-		}
-		setU64 := func(slot int, v uint64) { binary.LittleEndian.PutUint64(prefix[c14SlotU64+8*slot:], v) }
-		curN := uint64(len(curRoots)) // expected number of roots if everything so far succeeds
-		pickRoot := func() types.Hash256 {
-			switch rng.Intn(5) {
-			case 0:
-				return absent
-			case 1:
-				var r types.Hash256
-				rng.Read(r[:])
-				return r
-			default:
-				return known[rng.Intn(len(known))]
-			}
-		}
-		h0, h1 := pickRoot(), pickRoot()
-		copy(prefix[c14SlotHash:], h0[:])
-		copy(prefix[c14SlotHash+32:], h1[:])
-		spec := types.SpecifierEd25519
-		if rng.Intn(10) == 0 {
-			spec = types.NewSpecifier("entropy")
-		}
-		copy(prefix[c14SlotKey:], spec[:])
-		pk := h.renterKey.PublicKey()
-		copy(prefix[c14SlotKey+16:], pk[:])
-		var tweak types.Hash256
-		tweak[0] = byte(rng.Intn(3))
-		copy(prefix[c14SlotTweak:], tweak[:])
-		regRev := uint64(rng.Intn(4))
-		binary.LittleEndian.PutUint64(prefix[c14SlotRev:], regRev)
-		regData := prefix[c14SlotData : c14SlotData+32]
-		entry := rhp3.RegistryEntry{RegistryKey: rhp3.RegistryKey{PublicKey: pk, Tweak: tweak},
-			RegistryValue: rhp3.RegistryValue{Revision: regRev, Type: rhp3.EntryTypeArbitrary, Data: regData}}
-		sig := h.renterKey.SignHash(entry.Hash())
-		if rng.Intn(6) == 0 {
-			sig[5] ^= 0xff
-		}
-		copy(prefix[c14SlotSig:], sig[:])
-
-		var dn int
-		switch rng.Intn(10) {
-		case 0:
-			dn = rng.Intn(c14Prefix) // truncated program data
-		case 1, 2, 3:
-			dn = rhp2.SectorSize + c14Prefix + rng.Intn(3)*32
-		case 4:
-			dn = 2*rhp2.SectorSize + c14Prefix + rng.Intn(64)
-		default:
-			dn = c14Prefix + rng.Intn(100)
-		}
-		suffix := make([]byte, rng.Intn(16))
-		rng.Read(suffix)
-
-		off := func(slot int) uint64 { // mostly the slot, sometimes hostile
-			if rng.Intn(10) == 0 {
-				return c14Operand(rng, uint64(dn))
-			}
-			return uint64(slot)
-		}
-		hashoff := func() uint64 { return off(c14SlotHash + 32*rng.Intn(2)) }
-		sectoroff := func() uint64 {
-			switch rng.Intn(6) {
-			case 0:
-				return c14Operand(rng, uint64(dn))
-			case 1:
-				return uint64(dn) - rhp2.SectorSize
-			case 2:
-				return c14Prefix
-			default:
-				return 0
-			}
-		}
-		keylen := func() uint64 {
-			switch rng.Intn(8) {
-			case 0:
-				return uint64(rng.Intn(18))
-			case 1:
-				return 48 + uint64(rng.Intn(3)) - 1
-			case 2:
-				return c14Operand(rng, uint64(dn))
-			default:
-				return 48
-			}
-		}
-		proof := func() bool { return rng.Intn(2) == 0 }
-		valid := func() bool { return rng.Intn(10) < 7 }
-		// a range inside one sector: offset and length (leaf aligned when aligned is set)
-		inSector := func(aligned bool) (o, l uint64) {
-			if aligned {
-				o = 64 * uint64(rng.Intn(rhp2.SectorSize/64))
-				if rng.Intn(2) == 0 {
-					o = 64 * uint64(rng.Intn(4))
-				}
-				l = 64 * uint64(1+rng.Intn(8))
-				if rng.Intn(6) == 0 {
-					l = rhp2.SectorSize - o
-				}
-				if o+l > rhp2.SectorSize {
-					l = rhp2.SectorSize - o
-				}
-				return
-			}
-			o = uint64(rng.Intn(rhp2.SectorSize))
-			l = uint64(rng.Intn(300))
-			if o+l > rhp2.SectorSize {
-				l = rhp2.SectorSize - o
-			}
-			return
-		}
-		var prog []rhp3.Instruction
-		nin := 1 + rng.Intn(5)
-		for k := 0; k < nin; k++ {
-			s0, s1 := 3*k, 3*k+1
-			switch rng.Intn(16) {
-			case 0:
-				prog = append(prog, &rhp3.InstrAppendSector{SectorDataOffset: sectoroff(), ProofRequired: proof()})
-				curN++
-			case 1:
-				prog = append(prog, &rhp3.InstrAppendSectorRoot{MerkleRootOffset: hashoff(), ProofRequired: proof()})
-				curN++
-			case 2, 3:
-				if valid() {
-					c := uint64(rng.Intn(int(curN) + 1))
-					setU64(s0, c)
-					curN -= c
-				}
-				prog = append(prog, &rhp3.InstrDropSectors{SectorCountOffset: off(c14SlotU64 + 8*s0), ProofRequired: proof()})
-			case 4:
-				prog = append(prog, &rhp3.InstrHasSector{MerkleRootOffset: hashoff()})
-			case 5, 6:
-				pr := proof()
-				if valid() && curN > 0 {
-					o, l := inSector(pr || rng.Intn(2) == 0)
-					setU64(s0, l)
-					setU64(s1, uint64(rng.Intn(int(curN)))*rhp2.SectorSize+o)
-				}
-				prog = append(prog, &rhp3.InstrReadOffset{LengthOffset: off(c14SlotU64 + 8*s0), OffsetOffset: off(c14SlotU64 + 8*s1), ProofRequired: pr})
-			case 7, 8:
-				pr := proof()
-				if valid() {
-					o, l := inSector(pr || rng.Intn(2) == 0)
-					if l == 0 {
-						l = 64
-						o = 0
-					}
-					setU64(s0, l)
-					setU64(s1, o)
-				}
-				prog = append(prog, &rhp3.InstrReadSector{LengthOffset: off(c14SlotU64 + 8*s0), OffsetOffset: off(c14SlotU64 + 8*s1), MerkleRootOffset: hashoff(), ProofRequired: pr})
-			case 9, 10:
-				if valid() && curN > 0 {
-					setU64(s0, uint64(rng.Intn(int(curN))))
-					setU64(s1, uint64(rng.Intn(int(curN))))
-				}
-				prog = append(prog, &rhp3.InstrSwapSector{Sector1Offset: off(c14SlotU64 + 8*s0), Sector2Offset: off(c14SlotU64 + 8*s1), ProofRequired: proof()})
-			case 11:
-				ln := uint64(rng.Intn(3)) * 16
-				if rng.Intn(4) == 0 {
-					ln = c14Operand(rng, uint64(dn))
-				}
-				o := c14U64(rng, curN)
-				if valid() && curN > 0 {
-					ro, _ := inSector(false)
-					o = uint64(rng.Intn(int(curN)))*rhp2.SectorSize + ro
-					if ro+ln > rhp2.SectorSize && rng.Intn(3) > 0 {
-						o -= ro
-					}
-				}
-				prog = append(prog, &rhp3.InstrUpdateSector{Offset: o, Length: ln, DataOffset: off(c14SlotData), ProofRequired: proof()})
-			case 12:
-				du := []uint64{0, 1, 10, storage.MaxTempSectorBlocks, storage.MaxTempSectorBlocks + 1, ^uint64(0), 1 << 63}[rng.Intn(7)]
-				prog = append(prog, &rhp3.InstrStoreSector{DataOffset: sectoroff(), Duration: du})
-			case 13:
-				prog = append(prog, &rhp3.InstrRevision{})
-			case 14:
-				if rng.Intn(4) == 0 {
-					prog = append(prog, &rhp3.InstrReadRegistryNoVersion{InstrReadRegistry: rhp3.InstrReadRegistry{PublicKeyOffset: off(c14SlotKey), PublicKeyLength: keylen(), TweakOffset: off(c14SlotTweak)}})
-				} else {
-					prog = append(prog, &rhp3.InstrReadRegistry{PublicKeyOffset: off(c14SlotKey), PublicKeyLength: keylen(), TweakOffset: off(c14SlotTweak), Version: uint8(rng.Intn(4))})
-				}
-			default:
-				dl := uint64(32)
-				if rng.Intn(5) == 0 {
-					dl = c14Operand(rng, uint64(dn))
-				}
-				prog = append(prog, &rhp3.InstrUpdateRegistry{TweakOffset: off(c14SlotTweak), RevisionOffset: off(c14SlotRev), SignatureOffset: off(c14SlotSig),
-					PublicKeyOffset: off(c14SlotKey), PublicKeyLength: keylen(), DataOffset: off(c14SlotData), DataLength: dl, EntryType: rhp3.EntryTypeArbitrary})
-			}
-		}
-		d := newC14Data(buf, fill, dn, prefix, suffix)
-		var attach, finalize bool
-		for _, in := range prog {
-			attach = attach || in.RequiresContract() || in.RequiresFinalization()
-			finalize = finalize || in.RequiresFinalization()
-		}
+		prog, d, pt, dur, amount, attach, finalize := p.prog, p.d, p.pt, p.dur, p.amount, p.attach, p.finalize
+		dn := d.n
 
 		em.BeginCase(id, fmt.Sprintf("mdm program of %d instructions, data %d bytes", len(prog), dn))
 		balBefore := h.balance()
@@ -526,108 +756,9 @@ func TestVerifC14MDM(t *testing.T) {
 		failed, crashed := false, false
 		executed := 0
 		for _, in := range prog {
-			term, name := c14InstrCoq(in)
-			// what the environment will answer
-			var ohas, oread bool
-			oget := "None"
-			pd := d.pd()
-			hashAt := func(o uint64) (r types.Hash256, ok bool) {
-				if o <= uint64(len(pd)) && uint64(len(pd))-o >= 32 {
-					copy(r[:], pd[o:])
-					return r, true
-				}
-				return
-			}
-			u64At := func(o uint64) (uint64, bool) {
-				if o <= uint64(len(pd)) && uint64(len(pd))-o >= 8 {
-					return binary.LittleEndian.Uint64(pd[o:]), true
-				}
-				return 0, false
-			}
-			readable := func(r types.Hash256) bool { _, err := h.node.Volumes.ReadSector(r); return err == nil }
-			rootAt := func(idx uint64) (types.Hash256, bool) {
-				if pe.updater == nil {
-					return types.Hash256{}, false
-				}
-				rs := pe.updater.SectorRoots()
-				if idx < uint64(len(rs)) {
-					return rs[idx], true
-				}
-				return types.Hash256{}, false
-			}
-			switch i := in.(type) {
-			case *rhp3.InstrAppendSectorRoot:
-				if r, ok := hashAt(i.MerkleRootOffset); ok {
-					ohas, _ = h.node.Volumes.HasSector(r)
-				}
-			case *rhp3.InstrReadSector:
-				if r, ok := hashAt(i.MerkleRootOffset); ok {
-					oread = readable(r)
-				}
-			case *rhp3.InstrReadOffset:
-				if o, ok := u64At(i.OffsetOffset); ok {
-					if r, ok := rootAt(o / rhp2.SectorSize); ok {
-						oread = readable(r)
-					}
-				}
-			case *rhp3.InstrUpdateSector:
-				if r, ok := rootAt(i.Offset / rhp2.SectorSize); ok {
-					oread = readable(r)
-				}
-			case *rhp3.InstrReadRegistry, *rhp3.InstrReadRegistryNoVersion:
-				var rr *rhp3.InstrReadRegistry
-				if a, ok := i.(*rhp3.InstrReadRegistry); ok {
-					rr = a
-				} else {
-					rr = &i.(*rhp3.InstrReadRegistryNoVersion).InstrReadRegistry
-				}
-				if tw, ok := hashAt(rr.TweakOffset); ok && rr.PublicKeyLength == 48 {
-					if k, ok := hashAt(rr.PublicKeyOffset + 16); ok && rr.PublicKeyOffset < 1<<32 {
-						if v, err := h.node.Registry.Get(rhp3.RegistryKey{PublicKey: types.PublicKey(k), Tweak: tw}); err == nil {
-							oget = fmt.Sprintf("(Some %d%%N)", len(v.Data))
-						}
-					}
-				}
-			}
-			var rootsBefore []types.Hash256
-			if pe.updater != nil {
-				rootsBefore = pe.updater.SectorRoots()
-			}
-			tempsBefore := len(pe.tempSectors)
-
-			r := c14ExecOne(pe, in, log)
+			st := w.step(pe, in, d, log)
 			executed++
-
-			// oracle values that are only known afterwards
-			oroot := types.Hash256{}
-			owrite, oput := true, true
-			if r.pan == nil && r.err == nil {
-				switch in.(type) {
-				case *rhp3.InstrAppendSector:
-					rs := pe.updater.SectorRoots()
-					oroot = rs[len(rs)-1]
-				case *rhp3.InstrStoreSector, *rhp3.InstrUpdateSector:
-					copy(oroot[:], r.out)
-				}
-			} else if r.err != nil {
-				if errors.Is(r.err, storage.ErrNotEnoughStorage) || strings.Contains(r.err.Error(), "failed to write sector") {
-					owrite = false
-				}
-				if _, ok := in.(*rhp3.InstrUpdateRegistry); ok {
-					early := false
-					for _, p := range []string{"failed to read", "unsupported unlock key", "invalid unlock key", "failed to pay"} {
-						early = early || strings.Contains(r.err.Error(), p)
-					}
-					oput = early
-				}
-			}
-			envTerm := fmt.Sprintf("{| oroot := %s; owrite := %s; ohas := %s; oread := %s; oget := %s; oput := %s |}",
-				coqHash(oroot), coqBool(owrite), coqBool(ohas), coqBool(oread), oget, coqBool(oput))
-
-			var rootsAfter []types.Hash256
-			if pe.updater != nil {
-				rootsAfter = pe.updater.SectorRoots()
-			}
+			term, name, envTerm, r, rootsBefore, rootsAfter, tempsBefore := st.term, st.name, st.env, st.r, st.rootsBefore, st.rootsAfter, st.tempsBefore
 			spent := amount.Sub(budget.Remaining())
 			res := ""
 			switch {
